@@ -30,6 +30,7 @@ pub struct Unit {
     pub eagersync: BTreeSet<String>,  // eager names whose un-awaited call is a synchronous call of a same-named function (not a future value)
     pub onrecv: Vec<(String, String, String)>, // method `m` called on the local `x` is renamed (`on x m => n`)
     pub panic_forbidden: bool,        // `panics forbidden`: a panic in this unit's functions is an obligation failure, not a path end
+    pub pure_paths: BTreeSet<String>,  // call paths that never take the ghost world, whatever their last segment is called
     pub adapters_off: bool,
     pub extracts: Vec<Extract>,
 }
@@ -51,6 +52,7 @@ impl Unit {
                 "traced" => u.traced.extend(words()),
                 "eagersync" => { u.eagersync.extend(words()); u.eager.extend(words()); u.traced.extend(words()); }
                 "ufcs" => u.ufcs.extend(words()),
+                "purepath" => u.pure_paths.extend(words()),
                 "panics" => { u.panic_forbidden = rest.trim() == "forbidden"; }
                 "broadcast" => u.broadcasts.extend(words()),
                 "define" => { let w: Vec<String> = words().collect(); if w.len() == 2 { u.defines.push((w[0].clone(), w[1].clone())); } }
